@@ -59,7 +59,12 @@ def handle (j : Json) : Except String Json := do
     let rows := syntaxTable.map fun s => Json.mkObj [
       ("kw", Json.str s.kw), ("slot", Json.str (slotStr s.slot)), ("documented", Json.bool s.documented),
       ("suffix", Json.bool s.suffix), ("forms", Json.arr (s.forms.eraseDups.map fun f => kindsJson f.toks).toArray)]
-    return Json.mkObj [("syntax", Json.arr rows.toArray),
+    -- the header grammar of the specification (which slot may follow which; where body instructions may be interspersed)
+    let hslots : List Slot := [.titl, .cell, .zerr, .latt, .symm, .neut, .sfac, .disp, .unit]
+    let gram := hslots.map fun s => Json.mkObj [
+      ("slot", Json.str (slotStr s)), ("next", Json.arr (s.next.map fun n => Json.str (slotStr n)).toArray),
+      ("pre", Json.bool s.allowsPre)]
+    return Json.mkObj [("syntax", Json.arr rows.toArray), ("grammar", Json.arr gram.toArray),
                        ("atoms", Json.arr (atomForms.map fun f => kindsJson f.toks).toArray),
                        ("branches", Json.num (JsonNumber.fromNat T.dispatch.length)),
                        ("cards", Json.num (JsonNumber.fromNat T.cards.length))]
